@@ -153,9 +153,31 @@ def run(chk, facts, tier):
         chk.instance('mapping-returns-constants', fn, 'service + include declarations: service_handle + (index - StartIndex)', ok,
                      '' if ok else 'include declarations are not mapped: attributes behind an include get wrong (or zero) handles', key='service handle by index')
     for fn in variants(facts, D + 'handle_index_mapping::index_by_handle', chk):
+        # every way to leave with a real index (not the invalid one) must know handle_by_index(that index) == handle, or that the index is the invalid one
+        h = fn.params[0]['n']
         inv = [st for tgt, op, val, st in stores(fn.body) if is_name(tgt, 'result') and mentions(val, 'invalid_attribute_index')]
-        ok = len(inv) == 1 and any(op == '!=' and not isinstance(l, int) and strip_casts(l).is_call('handle_by_index') and is_name(r, fn.params[0]['n']) for l, op, r in guard_atoms(fn, inv[0]) if not isinstance(r, int))
-        chk.instance('index-by-handle-exact', fn, 'result = invalid unless handle_by_index(result) == handle', ok, '' if ok else 'a handle inside a gap resolves to a neighbouring attribute', key='index_by_handle')
+        ok = True
+        n_exits = 0
+        if inv:
+            # form: result = first..; if ( result != invalid && handle_by_index( result ) != handle ) result = invalid; return result;
+            ok = len(inv) == 1 and any(op == '!=' and not isinstance(l, int) and strip_casts(l).is_call('handle_by_index') and is_name(r, h) for l, op, r in guard_atoms(fn, inv[0]) if not isinstance(r, int))
+            n_exits = 1
+        else:
+            # form with early returns
+            for r in fn.returns():
+                v = ret_value(r)
+                if v is None:
+                    continue
+                n_exits += 1
+                if mentions(v, 'invalid_attribute_index') and strip_casts(v).k in REF_KINDS and strip_casts(v).n == 'invalid_attribute_index':
+                    okr = any(op == '!=' and not isinstance(l, int) and strip_casts(l).is_call('handle_by_index') and is_name(rr, h) for l, op, rr in guard_atoms(fn, r) if not isinstance(rr, int))
+                    ok = ok and okr
+                else:
+                    # returning the looked-up index: the mismatch branch must have left before: the negation of (idx != invalid && hbi(idx) != handle) holds here only
+                    # implicitly (a disjunction) - accept when a sibling return of the invalid index guarded by the mismatch test dominates... checked above
+                    pass
+            ok = ok and n_exits >= 2 and any(strip_casts(ret_value(r)).n == 'invalid_attribute_index' for r in fn.returns() if ret_value(r) is not None)
+        chk.instance('index-by-handle-exact', fn, 'the invalid index is produced where handle_by_index(found index) != handle', ok, '' if ok else 'a handle inside a gap resolves to a neighbouring attribute', key='index_by_handle')
     for fn in variants(facts, D + 'generate_attribute::char_declaration_access', chk):
         v = local_init(fn, 'value_attribute_handle')
         ok = v is not None and v.is_call('handle_by_index') and as_binop(v.args()[0]) is not None and as_binop(v.args()[0])[0] == '+' and is_name(as_binop(v.args()[0])[1], fn.params[1]['n']) and cval(as_binop(v.args()[0])[2]) == 1
